@@ -136,9 +136,10 @@ impl ConnectionTuning {
 /// to publish data as quickly as possible. It sets `mem_channel_bound` to 16,
 /// `buffered_writes_high_water` to 16 MiB, and `buffered_writes_low_water` to 1 MiB. Once it has
 /// published enough data that the I/O thread crosses the 16 MiB mark for buffered outgoing data,
-/// the publisher will be able to send 16 more messages into the I/O thread (note that this does
-/// necessarily mean full data messages, as AMQP messages will be broken up into muliple framed
-/// messages internally), at which point additional sends into the I/O thread will block. Once the
+/// the publisher will be able to send 16 more messages into the I/O thread (a published AMQP
+/// message is handed to the I/O thread as one message holding all of its frames, so that frames
+/// the I/O thread writes on its own cannot end up between them), at which point additional sends
+/// into the I/O thread will block. Once the
 /// I/O thread's buffered data amount drops below 1 MiB, it will resume polling the in-memory
 /// channel, pulling from the 16 buffered messages, freeing up space and unblocking the publisher.
 ///
